@@ -9,7 +9,9 @@ monitor event is attributable to one update.  For each update of a monitored sig
 and updates after a resume are reported again (exactly once each).  Whenever the engine is idle, and after
 'unmonitor', the signal's subscription table holds no engine callback.
 Not asserted: updates delivered in the transient windows 'pausing' / 'suspending' and within the handle in
-which monitor/unmonitor/close_run themselves run (either answer is legitimate there).
+which monitor/unmonitor/close_run themselves run (either answer is legitimate there); updates delivered
+while suspended once two interruptions have overlapped (a second suspension, or a pause and resume, inside a
+suspension: the inner release re-instates the monitors before the outer one ends -- compound case, C11).
 """
 
 from . import streams
@@ -50,6 +52,8 @@ def check(res):
         k, d = e.kind, e.d
         if k == "state":
             state = d["new"]
+            if state == "paused" and suspended:
+                overlapped = True  # a pause inside a suspension: its resume re-instates the monitors early
         elif k == "cmd" and d["cmd"] == "monitor" and d["end"] == "ok":
             m = next((x for x in v.evs if x.kind == "msg" and x.d["mid"] == d["mid"]), None)
             if m is not None and m.d["obj"] == sig:
